@@ -19,7 +19,7 @@ TECHNIQUE = ('explicit-state BFS over read/skip/skip-to-next/seek/tell histories
 RULE = ('W: FileWrite on every (trailer subset x max physical record length x TIF on/off x 1-3 record lengths from '
         '{2,3,P-1,P,P+1,2P,2P+1,3P}) compared byte for byte with lis_ref, incl. returned positions; two writers with default '
         'trailers in one process. R: BFS on FileRead over lis_ref files (TIF none/normal/reversed), operations '
-        'readLrBytes(n)/skipLrBytes(n) n in {0,1,2,P,P+1,2P+1,3P,-1}, skipToNextLr, seekLr(every record start), tellLr, hasLd; '
+        'readLrBytes(n)/skipLrBytes(n) n in {0,1,2,P,P+1,2P+1,3P,-1}, skipToNextLr, seekLr(every record start), seekCurrentLrStart, unpack(1, 2, P bytes), tellLr, hasLd; '
         'state = model cursor + (stream.tell,_ldIndex,_ldTell,_mustReadHead,isEOF,tif.previousTell is None,prAttr,ldLen). '
         'T: strip_tif(normal TIF file) == file without TIF. non-trivial = more than one physical record or a trailer or TIF; '
         'outcome = hash of file bytes / search size')
@@ -180,12 +180,16 @@ def ops_for(system, sizes):
     for n in sizes:
         ops.append(['read', n])
         ops.append(['skip', n])
+    for n in sizes[1:4]:
+        if n > 0:
+            ops.append(['unpack', n])
     ops.append(['next'])
     for j in range(len(system.recs)):
         ops.append(['seek', j])
     if m[0] == 'I':
         ops.append(['tell'])
         ops.append(['hasld'])
+        ops.append(['seekcur'])
     return ops
 
 
@@ -208,6 +212,27 @@ def step(system, op, check):
                 if new == ('E',) and not fr.isEOF:
                     bad.append(({'kind': 'eof_flag'}, 'read past the last record but isEOF is False'))
             system.m = new
+        elif kind == 'unpack':
+            import struct
+            from TotalDepth.LIS.core import File
+            n = op[1]
+            exp, new = model_read(system, n)
+            short = exp is None or len(exp) != n
+            try:
+                got = fr.unpack(struct.Struct('>%dB' % n))
+                if check and (short or got != tuple(exp)):
+                    bad.append(({'kind': 'unpack_values'}, 'unpack(%d bytes) in %r returned %r, the record holds %r there' % (n, system.m, got, exp)))
+            except File.ExceptionFileRead as err:
+                if check and not short:
+                    bad.append(({'kind': 'unpack_refused'}, 'unpack(%d bytes) in %r raised %s although %d bytes are left' % (n, system.m, err, n)))
+            system.m = new
+        elif kind == 'ldindex':
+            got = fr.ldIndex()
+            if check and got != system.m[2]:
+                bad.append(({'kind': 'ld_index'}, 'ldIndex() in %r returned %r' % (system.m, got)))
+        elif kind == 'seekcur':
+            fr.seekCurrentLrStart()
+            system.m = ('U', system.m[1])
         elif kind == 'next':
             m = system.m
             k = len(system.recs)
